@@ -90,9 +90,12 @@ theorem stmtsTyped : BTyped exΦ exGg none [] exProg.stmts := by
 theorem initOk : StOk [] [] exGg ({} : St Int) :=
   ⟨.nil, (by intro p hp; cases hp), ⟨rfl, (by intro t ht; cases ht), (by intro a s h; simp at h), (by intro a s h; simp at h)⟩⟩
 
+theorem exGgOk : GgOk exGg := by
+  constructor <;> intro t h <;> simp [exGg, xN, lit] at h
+
 /-- so the theorem applies to this program: for every oracle and every number of steps -/
 example (ext : Ext Int) (hx : ExtOk ext) (fuel : Nat) (st' : St Int) (w : String) :
     execStmts intOps ext exProg fuel exProg.stmts {} ≠ .err (.internal w) st' :=
-  (program_never_goes_wrong intOps ext exProg exΦ exGg hx progOk fuel {} st' [] stmtsTyped initOk w).1
+  (program_never_goes_wrong intOps ext exProg exΦ exGg hx exGgOk progOk fuel {} st' [] stmtsTyped initOk w).1
 
 end EvyV.TS.Example
